@@ -559,6 +559,18 @@ let is_local = function
 | KLocal -> true
 | _ -> false
 
+(** val is_steal : opk -> bool **)
+
+let is_steal = function
+| KSteal -> true
+| _ -> false
+
+(** val is_own : opk -> bool **)
+
+let is_own = function
+| KOwn -> true
+| _ -> false
+
 (** val call_ok : int -> opk -> bool **)
 
 let call_ok a0 = function
@@ -768,17 +780,17 @@ let step b reuse s = function
    | XM ->
      let s1 = release s me.lb (sub me.pend me.ppi) in
      let s2 = s_rl s1 (updr s1.rl me.ppi me.pend true) in
-     (match me.kd with
-      | KSteal ->
-        Some
-          (setA s2 a0
-            (a_pc
-              (a_dq
-                (a_rv me (match rev me.res with
-                          | [] -> []
-                          | v :: _ -> v :: []))
-                (app me.dq (removelast me.res))) Ext))
-      | _ -> Some (setA s2 a0 (a_pc (a_rv me me.res) Idle)))
+     if is_steal me.kd
+     then Some
+            (setA s2 a0
+              (a_pc
+                (a_dq
+                  (a_rv me
+                    (match rev me.res with
+                     | [] -> []
+                     | v :: _ -> v :: [])) (app me.dq (removelast me.res)))
+                Ext))
+     else Some (setA s2 a0 (a_pc (a_rv me me.res) Idle))
    | LK -> Some (setA (s_tix s (Stdlib.Int.succ me.lpi)) a0 (a_pc me LKr))
    | LKr ->
      let s1 = release s me.lb (Stdlib.Int.succ 0) in
@@ -799,12 +811,12 @@ let step b reuse s = function
   let me = s.a a0 in
   (match me.pc with
    | Ext ->
-     (match me.kd with
-      | KOwn ->
-        (match me.dq with
-         | [] -> Some (setA s a0 (a_pc me Idle))
-         | v :: r -> Some (setA s a0 (a_pc (a_dq (a_rv me (v :: [])) r) Idle)))
-      | _ -> Some (setA s a0 (a_pc me Idle)))
+     if is_own me.kd
+     then (match me.dq with
+           | [] -> Some (setA s a0 (a_pc me Idle))
+           | v :: r ->
+             Some (setA s a0 (a_pc (a_dq (a_rv me (v :: [])) r) Idle)))
+     else Some (setA s a0 (a_pc me Idle))
    | _ -> None)
 
 (** val ast0 : ast **)
@@ -1094,6 +1106,8 @@ let ainvb b nI s a0 =
         (impb ((||) (kdis x KLocal) (kdis x KPush)) ((=) a0 0)))
       (impb (inpush x.pc) (kdis x KPush)))
     (match x.pc with
+     | X1 -> negb (kdis x KLocal)
+     | X2 -> negb (kdis x KLocal)
      | XC ->
        (&&) ((&&) (negb (emptyck b x)) ((=) x.nid (newid b x)))
          (local_okb s x)
@@ -1107,8 +1121,9 @@ let ainvb b nI s a0 =
                  ((&&) (claim_okb b nI s a0 x) ((=) x.ghi (add bs (nexti x))))
                  (impb (kdis x KLocal) ((<=) x.ghi s.tix)))
      | XT ->
-       (&&) ((&&) (lock_okb s x) (negb (kdis x KLocal)))
-         ((=) x.ppi (add bs x.li))
+       (&&)
+         ((&&) ((&&) (lock_okb s x) (negb (kdis x KLocal)))
+           ((=) x.ppi (add bs x.li))) (locked b x)
      | XR -> (&&) (lock_okb s x) (negb (kdis x KLocal))
      | XN ->
        (&&)
@@ -1299,30 +1314,33 @@ let clauses b nA nB nI s =
   (forallb (fun i ->
     impb (s.rd i) (existsb ((=) i) (map (fun g -> snd (fst g)) s.got)))
     (iS nI)) :: ((forallb (fun a0 ->
-                   impb (lockpc b (s.a a0)) (lock_okb s (s.a a0))) (aS nA)) :: (
-  (forallb (ainvb b nI s) (aS nA)) :: (((&&)
-                                         ((&&) (negb s.bad_uaf)
-                                           (negb s.bad_under))
-                                         (negb s.bad_null)) :: ((got_ok s) :: (
-  (impb
-    (forallb (fun a0 -> (||) (pcis (s.a a0) Idle) (pcis (s.a a0) Ext))
-      (aS nA))
-    ((&&) ((<=) (hLb s) s.tix)
-      (forallb (fun i ->
-        impb (Nat.ltb i (hLb s))
-          (existsb ((=) i) (map (fun g -> snd (fst g)) s.got))) (iS nI)))) :: (
-  (forallb (fun a0 ->
-    let l =
-      map (fun g -> snd (fst g))
-        (filter (fun g -> (=) (fst (fst g)) a0) s.got)
-    in
-    let rec inc = function
-    | [] -> true
-    | x :: r ->
-      (match r with
-       | [] -> true
-       | y :: _ -> (&&) (Nat.ltb x y) (inc r))
-    in inc l) (aS nA)) :: [])))))))))))))))
+                   forallb (fun a' ->
+                     impb ((&&) (lockpc b (s.a a0)) (lockpc b (s.a a')))
+                       ((=) a0 a')) (aS nA)) (aS nA)) :: ((forallb
+                                                            (ainvb b nI s)
+                                                            (aS nA)) :: (
+  ((&&) ((&&) (negb s.bad_uaf) (negb s.bad_under)) (negb s.bad_null)) :: (
+  (got_ok s) :: ((impb
+                   (forallb (fun a0 ->
+                     (||) (pcis (s.a a0) Idle) (pcis (s.a a0) Ext)) (aS nA))
+                   ((&&) ((<=) (hLb s) s.tix)
+                     (forallb (fun i ->
+                       impb (Nat.ltb i (hLb s))
+                         (existsb ((=) i) (map (fun g -> snd (fst g)) s.got)))
+                       (iS nI)))) :: ((forallb (fun a0 ->
+                                        let l =
+                                          map (fun g -> snd (fst g))
+                                            (filter (fun g ->
+                                              (=) (fst (fst g)) a0) s.got)
+                                        in
+                                        let rec inc = function
+                                        | [] -> true
+                                        | x :: r ->
+                                          (match r with
+                                           | [] -> true
+                                           | y :: _ ->
+                                             (&&) (Nat.ltb x y) (inc r))
+                                        in inc l) (aS nA)) :: [])))))))))))))))
 
 (** val firstbad : bool list -> int -> int **)
 
